@@ -125,7 +125,7 @@ def _rpy(case):
             if ok2:
                 c.eq("rpy2r(tr2rpy)/rebuild", Rl, Rin, 1e-6)
     ok1, a_rad = c.lib("tr2rpy/rad", b.tr2rpy, M, order=order)
-    ok2, a_deg = c.lib("tr2rpy/deg", b.tr2rpy, M, unit="deg", order=order)
+    ok2, a_deg = c.lib("tr2rpy/deg", b.tr2rpy, M, "deg", order)       # options in their documented positional order
     if ok1 and ok2:
         c.eq("tr2rpy/deg=rad*180/pi", a_deg, np.asarray(a_rad, dtype=float) * D, 1e-9, 180.0)
     # class accessors
@@ -182,7 +182,7 @@ def _eul(case):
             if ok2:
                 c.eq("eul2r(tr2eul)/rebuild", Rl, Rin, 1e-6)
     ok1, a_rad = c.lib("tr2eul/rad", b.tr2eul, M, flip=flip)
-    ok2, a_deg = c.lib("tr2eul/deg", b.tr2eul, M, unit="deg", flip=flip)
+    ok2, a_deg = c.lib("tr2eul/deg", b.tr2eul, M, "deg", flip)          # options in their documented positional order
     if ok1 and ok2:
         c.eq("tr2eul/deg=rad*180/pi", a_deg, np.asarray(a_rad, dtype=float) * D, 1e-9, 180.0)
     cname = "SE3" if case["se"] else "SO3"
@@ -253,6 +253,9 @@ def _angvec(case):
     ok, res = c.lib("tr2angvec", b.tr2angvec, M, unit=unit)
     if ok:
         judge("tr2angvec", res)
+    ok, res = c.lib("tr2angvec/positional", b.tr2angvec, M, unit)               # unit is the documented second positional parameter
+    if ok:
+        judge("tr2angvec/positional", res)
     cname = "SE3" if case["se"] else "SO3"
     ok, X = c.lib(cname + "/ctor", getattr(L, cname), M.copy(), check=False)
     if ok:
@@ -307,7 +310,7 @@ def _xyt(case):
             c.true("tr2xyt/range", abs(a[2]) <= PI * k * (1 + 1e-15), "theta %.17g out of range" % a[2])
             c.eq("tr2xyt/rebuild", refs.rt(refs.rot2(a[2] / k), a[:2]), T, 1e-6, sc)
     ok1, a_rad = c.lib("tr2xyt/rad", b.tr2xyt, T.copy())
-    ok2, a_deg = c.lib("tr2xyt/deg", b.tr2xyt, T.copy(), unit="deg")
+    ok2, a_deg = c.lib("tr2xyt/deg", b.tr2xyt, T.copy(), "deg")
     if ok1 and ok2:
         c.eq("tr2xyt/deg=rad*180/pi", np.asarray(a_deg, dtype=float)[2], np.asarray(a_rad, dtype=float)[2] * D, 1e-9, 180.0)
     X = L.SE2(T.copy(), check=False)
@@ -318,7 +321,7 @@ def _xyt(case):
             c.eq("SE2.xyt/rebuild", refs.rt(refs.rot2(a[2]), a[:2]), T, 1e-6, sc)
     for cname, obj in (("SE2", X), ("SO2", L.SO2(refs.rot2(th), check=False))):
         ok1, t_rad = c.lib(cname + ".theta", obj.theta)
-        ok2, t_deg = c.lib(cname + ".theta/deg", obj.theta, unit="deg")
+        ok2, t_deg = c.lib(cname + ".theta/deg", obj.theta, "deg")
         if ok1:
             c.true(cname + ".theta/range", abs(t_rad) <= PI * (1 + 1e-15), "theta %.17g" % t_rad)
             c.eq(cname + ".theta/rebuild", refs.rot2(float(t_rad)), refs.rot2(th), 1e-6)
@@ -332,7 +335,7 @@ def _xyt(case):
     for cname, obj in (("SO2[M]", L.SO2([refs.rot2(a) for a in ths], check=False)),
                        ("SE2[M]", L.SE2([refs.rt(refs.rot2(a), [x, y]) for a in ths], check=False))):
         ok1, t_rad = c.lib(cname + ".theta", obj.theta)
-        ok2, t_deg = c.lib(cname + ".theta/deg", obj.theta, unit="deg")
+        ok2, t_deg = c.lib(cname + ".theta/deg", obj.theta, "deg")
         if ok1 and c.true(cname + ".theta/len", len(t_rad) == 3, "theta() of three values returned %r" % (t_rad,)):
             for a, got in zip(ths, t_rad):
                 c.eq(cname + ".theta/rebuild", refs.rot2(float(got)), refs.rot2(a), 1e-6)
